@@ -57,13 +57,19 @@ def run(ctx, only_cases=None):
         cases += [{"mode": "fallback", "n": 2, "sched": list(s)} for s in itertools.product([0, 1], repeat=4)]
         cases += [{"mode": "fallback", "n": 3, "sched": [ctx.rng.randrange(3) for _ in range(8)]} for _ in range(40 if thorough else 8)]
         cases += [{"mode": "ttl"}]
+        # node-id allocator sequences: allocate / lease lapses / release on 2-3 allocator objects over one store
+        cases += [{"mode": "nodeseq", "n": 2, "sched": list(s)} for s in itertools.product(range(6), repeat=4)][:: (1 if thorough else 5)]
+        cases += [{"mode": "nodeseq", "n": 3, "sched": [ctx.rng.randrange(9) for _ in range(ctx.rng.choice([4, 6, 9]))]} for _ in range(400 if thorough else 60)]
+        cases += [{"mode": "nodefault", "n": k} for k in (1, 2, 3, 4)]
+        cases += [{"mode": "birthday", "n": 120000 if thorough else 45000}]
     outs = vlib.run_harness(binary, cases, timeout=1500)
     nfail = 0
     for c, o in zip(cases, outs):
         if not o["prop_ok"]:
             nfail += 1
             if nfail <= 3:
-                kind = {"node": "node-id-duplicate", "fallback": "fallback-duplicate", "ttl": "marker-lifetime"}.get(
+                kind = {"node": "node-id-duplicate", "nodeseq": "node-id-duplicate-after-lease-lapse", "nodefault": "node-id-duplicate-on-shared-cache-fault", "birthday": "duplicate-live-id-real-collision",
+                        "fallback": "fallback-duplicate", "ttl": "marker-lifetime"}.get(
                     c["mode"], "leak" if "marker" in o["prop_msg"] else "duplicate-live-id")
                 ctx.violation(kind, "real idgen/node allocator: " + o["prop_msg"], {"case": c, "observed": o})
     sc = [(c, o) for c, o in zip(cases, outs) if c["mode"] == "sched"]
